@@ -85,7 +85,7 @@ func slotWorkloads(c *chk.Ctx, label string, n int) []*slotJob {
 func c06(args []string) {
 	c := chk.New("C06", "exploration", args)
 	c.Build(false)
-	c.Rule("contention workloads: maxConcurrentTasks in {1,2,3,4,6,8} (and NumCPU+4.. with a process that needs all slots and one that needs NumCPU+1), 2-4 processes with CoresPerTask drawn from 1..max, half of the command processes wrapped through Prepend, about 3*max simultaneously ready tasks of 15-60 ms (commands and Go functions), skipped tasks mixed in, an optional streaming producer/consumer pair, one scenario with commands whose work is done by a helper outliving them, one long-wait scenario (a task waiting > 10 s for a slot), a process with Spawn = false in every third workload, workflows made with NewWorkflowCustomLogFile and limits 1-3 whose last process has no out-ports (the driver), two workflow objects of one name with different limits in one program, SCIPIPE_BUFSIZE smaller than CoresPerTask, a multi-core task consuming a joined sub-stream while other tasks keep the slots busy; also workloads driven through the exported task API with a core count per task; oracles = (1) sweep line over the commands' own CLOCK_MONOTONIC start/end stamps weighted by CoresPerTask, (2) shadow slot counter updated under the hook mutex at acquisition/release, (3) porcupine linearizability of the Acquire(k)/Release(k) history against a sequential counting semaphore. distinct_nontrivial = runs whose observed weighted overlap reached max (real contention), distinct by (max, cores mix, interleaving signature)")
+	c.Rule("contention workloads: maxConcurrentTasks in {1,2,3,4,6,8} (and NumCPU+4.. with a process that needs all slots and one that needs NumCPU+1), 2-4 processes with CoresPerTask drawn from 1..max, half of the command processes wrapped through Prepend, about 3*max simultaneously ready tasks of 15-60 ms (commands and Go functions), skipped tasks mixed in, an optional streaming producer/consumer pair, one scenario with commands whose work is done by a helper outliving them, one long-wait scenario (a task waiting > 10 s for a slot), a process with Spawn = false in every third workload, partial runs (RunTo / RunToProcs / RunToRegex over a five-step chain with limits 1-2), 100-140 tasks of a 2-core process in flight at once, workflows made with NewWorkflowCustomLogFile and limits 1-3 whose last process has no out-ports (the driver), two workflow objects of one name with different limits in one program, SCIPIPE_BUFSIZE smaller than CoresPerTask, a multi-core task consuming a joined sub-stream while other tasks keep the slots busy; also workloads driven through the exported task API with a core count per task; oracles = (1) sweep line over the commands' own CLOCK_MONOTONIC start/end stamps weighted by CoresPerTask, (2) shadow slot counter updated under the hook mutex at acquisition/release, (3) porcupine linearizability of the Acquire(k)/Release(k) history against a sequential counting semaphore. distinct_nontrivial = runs whose observed weighted overlap reached max (real contention), distinct by (max, cores mix, interleaving signature)")
 	c.Assume("a command's [start,end] interval lies inside its task's slot-holding interval, so the weighted overlap is a lower bound of slot usage (sound)", "CoresPerTask <= maxConcurrentTasks")
 	jobs := slotWorkloads(c, "c06", c.Pick(48, 500))
 	// long-wait scenario: three tasks of ~10.6 s on 2 slots, so that one task waits > 10 s for its slot
@@ -163,6 +163,42 @@ func c06(args []string) {
 			&spec.Proc{Name: "last", Kind: []string{spec.KCmd, spec.KGoFunc}[r%2], Cmd: spec.BuildCmd("last", in, nil, nil, nil, map[string]string{"sleep": "70"})})
 		s.Conns = append(s.Conns, &spec.Conn{From: "src.out", To: "side.in"}, &spec.Conn{From: "src.out", To: "last.in"})
 		jobs = append(jobs, &slotJob{s, nil, Cfg{Buf: []int{128, 2}[r%2], Procs: 4}, "out-port-less-driver-process"})
+	}
+	// partial runs: RunTo / RunToProcs / RunToRegex over a chain of four processes with a limit of two, 8 ready tasks
+	for r := 0; r < c.Pick(3, 9); r++ {
+		in, o1 := []spec.PortDecl{{Name: "in"}}, []spec.PortDecl{{Name: "out"}}
+		max := 1 + r%2
+		s := &spec.Spec{Name: fmt.Sprintf("runtoslots%d", r), MaxTasks: max, Sources: map[string]string{}}
+		src := &spec.Proc{Name: "src", Kind: spec.KFileSource}
+		for k := 0; k < 8; k++ {
+			f := fmt.Sprintf("p%02d.txt", k)
+			src.Files = append(src.Files, f)
+			s.Sources[f] = f + "\n"
+		}
+		s.Procs = append(s.Procs, src)
+		prev := "src"
+		for k := 0; k < 5; k++ {
+			pn := fmt.Sprintf("st%d", k)
+			s.Procs = append(s.Procs, &spec.Proc{Name: pn, Kind: spec.KCmd, Cmd: spec.BuildCmd(pn, in, o1, nil, nil, map[string]string{"sleep": "40"})})
+			s.Conns = append(s.Conns, &spec.Conn{From: prev + ".out", To: pn + ".in"})
+			prev = pn
+		}
+		s.Run = spec.Run{Mode: []string{"runto", "runtoprocs", "runtoregex"}[r%3], Targets: []string{[]string{"st3", "st3", "^st3$"}[r%3]}}
+		jobs = append(jobs, &slotJob{s, nil, Cfg{Buf: 128, Procs: 4}, "partial-run"})
+	}
+	// scale: 100 tasks of a 2-core process in flight at once (limit 4)
+	for r := 0; r < c.Pick(1, 3); r++ {
+		in, o1 := []spec.PortDecl{{Name: "in"}}, []spec.PortDecl{{Name: "out"}}
+		s := &spec.Spec{Name: fmt.Sprintf("scale%d", r), MaxTasks: 4, Sources: map[string]string{}}
+		src := &spec.Proc{Name: "src", Kind: spec.KFileSource}
+		for k := 0; k < 100+20*r; k++ {
+			f := fmt.Sprintf("q%03d.txt", k)
+			src.Files = append(src.Files, f)
+			s.Sources[f] = f + "\n"
+		}
+		s.Procs = append(s.Procs, src, &spec.Proc{Name: "wide", Kind: spec.KCmd, Cores: 2, Cmd: spec.BuildCmd("wide", in, o1, nil, nil, map[string]string{"sleep": "25"})})
+		s.Conns = append(s.Conns, &spec.Conn{From: "src.out", To: "wide.in"})
+		jobs = append(jobs, &slotJob{s, nil, Cfg{Buf: 128, Procs: 4, NoHooks: r%2 == 1}, "hundred-tasks-in-flight"})
 	}
 	// a task whose in-port is a joined sub-stream, with other tasks keeping the slots busy
 	for r := 0; r < c.Pick(2, 6); r++ {
